@@ -281,6 +281,30 @@ def run(ctx):
             else:
                 viol.append({"what": "call %d of the sequence %s on one Shaper raised %s: %s" % (go.at + 1, " -> ".join(seq), r[1], r[2]), "where": obs["where"],
                              "sequence": list(seq), **pipeline.case_json(g, cfg)})
+    # ---------------- (b4) Turtle documents in free layout (line breaks at any token boundary, comments, ';' and ',') through TURTLE_ITER
+    from props import c07
+    stats["laid_out_turtle_documents"] = 0
+    for i in range(60 if ctx.tier == "quick" else 1000):
+        use_base = rng.random() < 0.4
+        groups = c07.gen_groups(rng)
+        # classes are IRIs here: a class that is a blank node ends in a value set naming it, the other face of finding F-C04-4
+        groups = [(s_, [(p_, [(('I', 'http://other.org/cls%d' % k) if (p_[1] == RDF_TYPE and o_[0] == 'B') else o_) for k, o_ in enumerate(objs)]) for p_, objs in pos])
+                  for s_, pos in groups]
+        doc = c07.header(rng, use_base) + c07.layout(rng, c07.token_stream(rng, groups, use_base))
+        for fmt in (C.SHEXC, C.SHACL_TURTLE):
+            r = call(lambda: Shaper(raw_graph=doc, input_format=C.TURTLE_ITER, all_classes_mode=True, inverse_paths=(i % 2 == 0)).shex_graph(
+                string_output=True, output_format=fmt))
+            stats["laid_out_turtle_documents"] += 1
+            stats["pipeline_calls"] += 1
+            if r is not None:
+                stats["exceptions"][r[1]] = stats["exceptions"].get(r[1], 0) + 1
+                abstract = [(s_, p_[1], o_) for s_, pos in groups for p_, objs in pos for o_ in objs]
+                fid = F.match(kf, {"kind": "exception", "exc": r[1], "msg": r[2], "cfg": {"inverse": i % 2 == 0, "inst_prop": RDF_TYPE}, "triples": abstract})
+                if fid:
+                    hit.add(fid)
+                    break
+                viol.append({"what": "TURTLE_ITER document in free layout, %s raised %s: %s" % (fmt, r[1], r[2]), "where": r[3] if len(r) > 3 else "", "doc": doc})
+                break
     # ---------------- (c) other accepted configurations: every input syntax, shape maps, empty target list
     import rdflib
     stats["syntax_calls"] = {}
@@ -348,5 +372,5 @@ def run(ctx):
                            "blank-node values with/without classes, non-target classes, nodes without outgoing triples, one-instance classes, "
                            "language tags) x accepted configurations x {ShExC, SHACL} x {shex_graph, profile_graph}; (b2) the same with disjunctions enabled "
                            "(with / without allow_redundant_or) and with predicates, classes, object IRIs and datatypes of the schemes urn:, mailto:, ftp:, tag:, a "
-                           "one-letter scheme and one with digits / + / . / -; (b3) sequences of shex_graph / profile_graph calls on one Shaper" % ((2, 3) if ctx.tier == "quick" else (3, 4)),
+                           "one-letter scheme and one with digits / + / . / -; (b3) sequences of shex_graph / profile_graph calls on one Shaper; (b4) Turtle documents of the C07 layout generator through TURTLE_ITER" % ((2, 3) if ctx.tier == "quick" else (3, 4)),
                            DEPS)
